@@ -1,10 +1,16 @@
 from .common import COMMON_TB
 
 CFG = dict(
-    coq="Properties/C05.v",
+    coq=["Properties/C05.v", "Properties/C05Readers.v"],
     areas=["iofault", "lzmadec"],
     level="proof",
-    theorems_expected=["C05_read_exact_abstracts", "C05_read_exact_short", "C05_write_all_soft", "C05_write_all_prefix"],
+    theorems_expected=["C05_read_exact_abstracts", "C05_read_exact_short", "C05_write_all_soft", "C05_write_all_prefix",
+                       "C05_run_rc_input_monotone", "C05_run_rc_truncated", "C05_lzma_decode_input_monotone", "C05_lzma_decode_truncated",
+                       "C05_lzma1_reader_input_monotone", "C05_lzma1_truncated_raw", "C05_lzma1_truncated_header", "C05_lzma1_read_obs_is_read_all",
+                       "C05_lzma2_reader_truncated_step", "C05_lzma2_truncated", "C05_lzma2_truncated_preset", "C05_lzma2_error_sticky",
+                       "C05_lzip_truncated", "C05_lzip_truncated_written", "C05_lzip_truncated_single_member", "C05_lzip_empty_prefix_known",
+                       "C05_xz_truncated", "C05_xz_truncated_written", "C05_lzma2_payload_truncated_step",
+                       "C05_bcj_reader_retry", "C05_delta_reader_short_reads"],
     rule="iofault: (1) random source/sink scripts (data chunks, Interrupted, hard error kinds, EOF / Ok(0)) run through std's read_exact / "
          "write_all and through the extracted Io/Script.v model: results must be identical; (2) for each of 14 formats (lzma1, lzma2, xz, "
          "lzip, delta, 8 BCJ) a stream produced by the crate is read through a source that chops reads and reports Interrupted (output "
@@ -12,6 +18,8 @@ CFG = dict(
          "bytes (Err or the complete original; every truncation point for streams <= 48 bytes); writers run over sinks that short-write / "
          "report Interrupted (bytes unchanged), fail at call j (Err(k) returned) or return Ok(0) (error). lzmadec: truncated LZMA/LZMA2 "
          "streams vs the decoder model. distinct_nontrivial = distinct command lines with a non-empty observation",
-    trusted_base=COMMON_TB + ["fault cases of part (2) are decided by the oracle on the implementation only (model side prints SKIP)"],
+    trusted_base=COMMON_TB + ["fault cases of part (2) are decided by the oracle on the implementation only (model side prints SKIP); "
+                              "the reader models the truncation theorems of Properties/C05Readers.v are about are tied to the code by the lzmadec area "
+                              "(truncated LZMA/LZMA2 streams: observation incl. error kind compared with the extracted models) and by the container areas of C04/C12"],
     assumptions=["std::io::Read::read_exact / Write::write_all behave as modelled in Io/Script.v (checked by part (1) of the area)"],
 )
